@@ -155,7 +155,7 @@ impl Check for C18 {
         "fault_enumeration"
     }
     fn rule(&self) -> &'static str {
-        "case = configuration with 1-4 modes (identifier-like distinct names), lookaheads of both polarities (also nullable ones), ~9% with a token type shared by several patterns of a mode, classes and literals whose text needs escaping in a label (quote, backslash, newline, non-ASCII, braces), a random prefix, a target folder that is fresh or already holds larger files of an earlier export under the same names plus an unrelated file, plus one injected fault out of {none, target folder missing, regular file in place of the folder, directory occupying the output file name of the last / of the first mode, over-long prefix}; oracle = without fault: Ok, the fresh target directory contains exactly the files <prefix>_<mode>.dot, each parses with a strict parser of the DOT subset, and by content: nodes = states (number leading the label), ` T<t>` exactly on accepting non-start states with t their token type, multiset of edges (source state, trailing (C#id), target state) = multiset of transitions of the feature-gated dump, exactly one cluster per lookahead labelled with T<t> and Pos/Neg containing the lookahead automaton under the same rules; with fault: Err and no panic; non-trivial = >= 2 modes or >= 1 lookahead together with a label needing an escape"
+        "case = configuration with 1-4 modes (identifier-like distinct names), lookaheads of both polarities (also nullable ones), ~9% with a token type shared by several patterns of a mode, classes and literals whose text needs escaping in a label (quote, backslash, newline, non-ASCII, braces), a random prefix, a target folder that is fresh or already holds larger files of an earlier export under the same names plus an unrelated file, or (~19%) the export of a near-identical scanner whose rendering has the same length, plus one injected fault out of {none, target folder missing, regular file in place of the folder, directory occupying the output file name of the last / of the first mode, over-long prefix}; oracle = without fault: Ok, the fresh target directory contains exactly the files <prefix>_<mode>.dot, each parses with a strict parser of the DOT subset, and by content: nodes = states (number leading the label), ` T<t>` exactly on accepting non-start states with t their token type, multiset of edges (source state, trailing (C#id), target state) = multiset of transitions of the feature-gated dump, exactly one cluster per lookahead labelled with T<t> and Pos/Neg containing the lookahead automaton under the same rules; with fault: Err and no panic; non-trivial = >= 2 modes or >= 1 lookahead together with a label needing an escape"
     }
     fn cases(&self, thorough: bool) -> usize {
         if thorough {
@@ -241,7 +241,7 @@ impl Check for C18 {
         let fault = *d.pick(&["none", "none", "none", "missing_folder", "file_as_folder", "dir_as_output", "dir_as_first_output", "long_prefix"]);
         Case {
             modes,
-            extra: json!({"prefix": prefix, "fault": fault, "prefill": d.chance(80)}),
+            extra: json!({"prefix": prefix, "fault": fault, "prefill": d.chance(80), "sibling_first": d.chance(48)}),
             ..Case::default()
         }
     }
@@ -321,6 +321,41 @@ impl Check for C18 {
         }
         if fault == "missing_folder" {
             target = dir.join("does").join("not").join("exist");
+        }
+        if fault == "none" && case.extra["sibling_first"].as_bool().unwrap_or(false) {
+            // an earlier export of a near-identical scanner into the same folder under the same
+            // names (a lookahead polarity flipped, else a token type changed within its number of
+            // digits: renderings of equal length and different content)
+            let mut sib = case.clone();
+            let mut changed = false;
+            'outer: for m in sib.modes.iter_mut() {
+                for p in m.pats.iter_mut() {
+                    if let Some(la) = p.la.as_mut() {
+                        la.positive = !la.positive;
+                        changed = true;
+                        break 'outer;
+                    }
+                }
+            }
+            if !changed {
+                'outer2: for m in sib.modes.iter_mut() {
+                    for i in 0..m.pats.len() {
+                        let t = m.pats[i].tt;
+                        let cand = if t % 10 == 9 { t - 1 } else { t + 1 };
+                        if m.pats.iter().all(|q| q.tt != cand) && m.transitions.iter().all(|x| x.0 != t && x.0 != cand) {
+                            m.pats[i].tt = cand;
+                            changed = true;
+                            break 'outer2;
+                        }
+                    }
+                }
+            }
+            if changed {
+                if let Ok(Ok(s2)) = guard(|| sib.build_uncached()) {
+                    let _ = guard(|| s2.generate_compiled_automata_as_dot(&use_prefix, &target));
+                    st.count("exports_over_a_sibling_export");
+                }
+            }
         }
         let r = guard(|| scanner.generate_compiled_automata_as_dot(&use_prefix, &target));
         let result = (|| -> CheckResult {
